@@ -414,3 +414,38 @@ class port_impedance_series_resonance:
     def ensures(result, net):
         R, X = net['R'].element.Z, net['L'].element.Z.imag
         return {'Z(1,0) = R + jX - jX': eq(result[0], R), 'Z(2,0) = 0': eq(result[1], 0), 'Z(3,0) = -jX': eq(result[2], -1j * X)}
+
+
+@contract('CircuitCalculator.Network.NodalAnalysis.node_analysis.open_circuit_impedance', props=['C06', 'C03'],
+          bounded='one topology with a dangling node whose name sorts AFTER the queried node, the queried node not being the first one')
+class port_impedance_with_dangling_node_sorted_last:
+    def inputs(g):
+        late = g.choice('dangling node name', ['z', 'm'])
+        return dict(net=Network([Branch('b', '0', elm.resistor('R1', g.pos('R1'))), Branch('a', 'b', elm.resistor('R2', g.pos('R2'))),
+                                 Branch('a', '0', elm.resistor('R3', g.pos('R3'))), Branch(late, '0', elm.open_circuit('C_at_dc')),
+                                 Branch(late, 'b', elm.open_circuit('C2_at_dc'))], '0'))
+
+    def call(f, net):
+        return (f(net, 'b', '0'), f(net, 'a', '0'), f(net, 'a', 'b'))
+
+    def ensures(result, net):
+        R1, R2, R3 = net['R1'].element.Z, net['R2'].element.Z, net['R3'].element.Z
+        return {'Z(b,0) = R1 || (R2 + R3)': eq(result[0] * (R1 + R2 + R3), R1 * (R2 + R3)),
+                'Z(a,0) = R3 || (R1 + R2)': eq(result[1] * (R1 + R2 + R3), R3 * (R1 + R2)),
+                'Z(a,b) = R2 || (R1 + R3)': eq(result[2] * (R1 + R2 + R3), R2 * (R1 + R3))}
+
+
+@contract('CircuitCalculator.Network.NodalAnalysis.node_analysis.open_circuit_impedance', props=['C06', 'C01'],
+          bounded='series chain with two parallel branches (possibly of EQUAL value) between two inner nodes')
+class port_impedance_parallel_pair_inside:
+    def inputs(g):
+        return dict(net=Network([Branch('1', '2', elm.resistor('Ra', g.pos('Ra'))), Branch('2', '3', elm.resistor('Rp', g.pos('Rp'))),
+                                 Branch('3', '2', elm.resistor('Rq', g.pos('Rq'))), Branch('3', '0', elm.resistor('Rb', g.pos('Rb')))], '0'))
+
+    def call(f, net):
+        return (f(net, '1', '0'), f(net, '2', '3'))
+
+    def ensures(result, net):
+        Ra, Rp, Rq, Rb = net['Ra'].element.Z, net['Rp'].element.Z, net['Rq'].element.Z, net['Rb'].element.Z
+        return {'Z(1,0) = Ra + Rp || Rq + Rb': eq((result[0] - Ra - Rb) * (Rp + Rq), Rp * Rq),
+                'Z(2,3) = Rp || Rq': eq(result[1] * (Rp + Rq), Rp * Rq)}
